@@ -39,6 +39,7 @@ func (s *Scheduler) Schedule(g *ExecutionGraph) error {
 	var wg = sync.WaitGroup{}
 
 	for !s.isDone(g) {
+		verifAt("sched.pass", s, g)
 		if atomic.LoadInt32(&s.cancelled) == 1 {
 			break
 		}
@@ -70,6 +71,7 @@ func (s *Scheduler) Schedule(g *ExecutionGraph) error {
 
 			wg.Add(1)
 			stage.UpdateStatus(StatusRunning)
+			verifAt("sched.stage.launch", stage)
 			go func(stage *Stage) {
 				defer func() {
 					stage.End = time.Now()
@@ -81,6 +83,7 @@ func (s *Scheduler) Schedule(g *ExecutionGraph) error {
 				err := s.runStage(stage)
 				if err != nil {
 					stage.UpdateStatus(StatusError)
+					verifAt("sched.stage.errored", stage)
 
 					if !stage.AllowFailure {
 						g.error = err
